@@ -36,6 +36,10 @@ def run(ctx, R, tier):
     from .c10 import err_gate_first
     err_gate_first(F, R, rule='B.C08.finish')
     static_end_in_step(F, R)
+    # 'a sound finishing frees its slot': a stopped sound is finished only once Stopping -> Stopped is taken, which needs the
+    # fade-out tween to have been started when Stopping was entered, whatever the state stop() found the sound in
+    from .c03 import fade_start
+    fade_start(F, R, rule='B.C08.finish')
     # '(at the one after, if the audio thread had not yet picked the resource up)': a resource picked up in a callback takes part in
     # that callback's hand-over itself (new resources are taken over before the owner's items are polled)
     from .c07 import first as picked_up_before_polled
